@@ -593,6 +593,50 @@ def coverage_tie(prop, own_cases_path, tmp):
 
 
 
+def stream_table_check(tmp):
+    """C20: coq/Model/Stream.v (the serde visitors against a streaming format: entries, end, error; polls counted) is
+    tied to /repo by running the same 324 streams through the crate's Deserialize impls (`mm-harness --stream-table`,
+    debug and release) and demanding, INSIDE THE KERNEL, that the model's table `st_table` equals what the
+    implementation printed (vm_compute).  returns (ok, text, rows)"""
+    rows = None
+    for prof in ("debug", "release"):
+        r = sh(f"{CACHE}/target/{prof}/mm-harness --stream-table", timeout=120)
+        if r.returncode != 0:
+            return False, f"mm-harness --stream-table failed ({prof} build)", 0
+        cur = []
+        for ln in r.stdout.strip().split("\n"):
+            head, _, res = ln.partition(" : ")
+            cur.append((head, [int(x) for x in res.split()]))
+        if rows is not None and cur != rows:
+            bad = [(a[0], a[1], b[1]) for a, b in zip(rows, cur) if a != b][:5]
+            return False, "debug and release builds disagree on the stream table: " + str(bad), len(cur)
+        rows = cur
+    lit = "; ".join("[" + "; ".join(str(x) for x in r_) + "]" for _, r_ in rows)
+    d = tmp + ".stream"
+    sh(f"rm -rf {d}; mkdir -p {d}")
+    with open(d + "/stream_cmp.v", "w") as f:
+        f.write("Require Import List NArith. Import ListNotations.\nRequire Import Model.StreamTable.\n"
+                f"Example stream_table_ok : st_table = [{lit}]%N.\nProof. vm_compute. reflexivity. Qed.\n")
+    r = sh(f"cd {d} && timeout 300 coqc -Q {COQ}/Model Model stream_cmp.v 2>&1", timeout=400)
+    if r.returncode == 0:
+        sh(f"rm -rf {d}")
+        return True, f"{len(rows)} streams: model table = implementation table (kernel, vm_compute)", len(rows)
+    # locate the differing rows
+    with open(d + "/stream_eval.v", "w") as f:
+        f.write("Require Import List NArith. Import ListNotations.\nRequire Import Model.StreamTable.\n"
+                "Eval vm_compute in st_table.\n")
+    r2 = sh(f"cd {d} && timeout 300 coqc -Q {COQ}/Model Model stream_eval.v 2>&1", timeout=400)
+    txt = r2.stdout.replace("%N", "")
+    model = [[int(x) for x in re.findall(r"\d+", m_)] for m_ in re.findall(r"\[([0-9;\s]*)\]", txt[txt.find("=") + 1:])]
+    diffs = []
+    for i, (head, impl) in enumerate(rows):
+        mo = model[i] if i < len(model) else None
+        if mo != impl:
+            diffs.append(f"stream (kind n capacity fail dup) = ({head}): implementation (result len polls late finished) = {impl}, model = {mo}")
+    sh(f"rm -rf {d}")
+    return False, "\n".join(diffs[:20]) or ("coqc failed: " + r.stdout[-400:]), len(rows)
+
+
 def rust_code_only(src):
     """strip // comments (incl. doc comments) and string literals, drop #[cfg(test)] tails"""
     src = src.split("#[cfg(test)]")[0]
@@ -1029,6 +1073,16 @@ def check(prop, tier, replay=None):
                             + "\n".join(f"src/{a}:{ln}: `{b}`   in   {c}" for (a, b, c, ln) in newreg) + "\n")
                 violations.append((f"{len(newreg)} code regions never entered by the correspondence runs, e.g. src/{newreg[0][0]}:{newreg[0][3]}", rp, False))
         STAGES.append(("verdict2", time.time()))
+    if prop == "C20" and not replay:
+        oks, txts, nrows = stream_table_check(tmp)
+        notes.append("stream table: " + txts[:300])
+        if not oks:
+            rp = f"{OUT}/replay/{prop}-stream.txt"
+            with open(rp, "w") as f:
+                f.write("property C20: decoding from a streaming format (coq/Model/Stream.v vs the crate's Deserialize impls)\n"
+                        "each line is a failing input: the stream (kind 0 = Map / 1 = Set, number of entries, target capacity, "
+                        "position of the broken entry or 9, last entry repeats the first key) and what the two sides did\n" + txts + "\n")
+            violations.append(("stream table differs: " + txts.split("\n")[0][:200], rp, True))
     if prop == "C06" and not replay and not violations:
         ok6, txt6 = nostd_check()
         notes.append(txt6[:200])
